@@ -70,12 +70,32 @@ def seeded_table():
     return "\n".join(out)
 
 
+def theorem_table():
+    """the property theorems as they stand in lean/MaestroVerif/Props (names only; the statements
+    are in the files, the axioms each depends on are in evidence/<id>.json)"""
+    out = ["| id | theorems in `Props/Cxx.lean` | lemma files it rests on | lines (Props + those lemma files) |",
+           "|---|---|---|---|"]
+    props = os.path.join(HERE, "lean", "MaestroVerif", "Props")
+    lem = os.path.join(HERE, "lean", "MaestroVerif", "Lemmas")
+    for f in sorted(os.listdir(props)):
+        if not re.fullmatch(r"C\d\d\.lean", f):
+            continue
+        src = open(os.path.join(props, f)).read()
+        names = re.findall(r"^theorem\s+([A-Za-z0-9_.']+)", src, re.M)
+        imports = re.findall(r"^import MaestroVerif\.Lemmas\.(\w+)", src, re.M)
+        n = src.count("\n") + sum(open(os.path.join(lem, i + ".lean")).read().count("\n")
+                                  for i in imports if os.path.exists(os.path.join(lem, i + ".lean")))
+        out.append("| %s | %d: %s | %s | %d |" % (f[:3], len(names), ", ".join("`%s`" % x for x in names),
+                                                  ", ".join(imports) or "-", n))
+    return "\n".join(out)
+
+
 def main():
     findings = json.load(open(os.path.join(HERE, "known_findings.json")))["findings"]
     p = os.path.join(HERE, "DESIGN.md")
     s = open(p).read()
     for key, text in (("fixed", fixed_table(findings)), ("known", known_table(findings)),
-                      ("seeded", seeded_table())):
+                      ("seeded", seeded_table()), ("theorems", theorem_table())):
         pat = re.compile(r"(<!-- BEGIN GENERATED %s -->\n).*?(<!-- END GENERATED %s -->)" % (key, key), re.S)
         assert pat.search(s), key
         s = pat.sub(lambda m: m.group(1) + text + "\n" + m.group(2), s)
